@@ -93,12 +93,13 @@ namespace awsim {
 namespace awsim {
   const std::string& err_cls();
   const std::string& err_msg();
+  void bufreg_clear();
 }
 
 extern "C" {
   int aws_abi() { return 3; }
 
-  void aws_reset() { awsim::reset_all(); }
+  void aws_reset() { awsim::reset_all(); awsim::bufreg_clear(); }
 
   long aws_live() { return awsim::live_count(); }
 
